@@ -796,6 +796,11 @@ func (am *AccountingManager) drainAllSessions() []*AccountingSession {
 		am.logger.Warn("Shutdown timeout reached, some sessions may not have sent Accounting-Stop",
 			zap.Int("total", len(sessions)),
 		)
+		// The sends were given ctx, so every one of them returns now and queues
+		// its Stop. Wait for that: a session that is not reported as handled
+		// keeps its recovery file, and with its Stop in the queue as well the
+		// next start would send the Stop twice.
+		<-done
 	}
 
 	handledMu.Lock()
